@@ -1,5 +1,6 @@
 import Zc.Model.SurviveUser
 import Zc.Proofs.SurviveRoute
+import Zc.GenFacts.SurviveApi
 /-! `BaseOK` discharged down to the application's own code (C15): the library part of the listener rounds — iterating over the
 listeners, waking the lookups' futures, `async_notify_all` — never raises; what is left is exactly "the user callbacks return"
 (`UserOK`).  And that hypothesis is needed: an exception out of a user callback is the outcome of the whole round (`listeners_raises`). -/
@@ -11,16 +12,27 @@ open Zc Zc.Survive Zc.Survive.Comp Zc.Survive.Route
 /-- the `InvalidStateError` site of `set_result` is guarded by `if not fut.done()` -/
 theorem setNoneIfNotDone_ok (f : Fut) : ∃ f', setNoneIfNotDone f = .ok f' ∧ f'.done = true ∧ f'.id = f.id := by
   unfold setNoneIfNotDone Fut.setResult
-  cases hd : f.done
-  · exact ⟨{ f with done := true }, by simp, rfl, rfl⟩
-  · exact ⟨f, by simp, hd, rfl⟩
+  by_cases hg : Gen.SurviveApi.fut_set_guard f.done = true
+  · have hd := (GenFacts.SurviveApi.fut_set_guard_iff f.done).mp hg
+    exact ⟨{ f with done := true }, by rw [if_pos hg, if_neg (by simp [hd])], rfl, rfl⟩
+  · have hd : f.done = true := by
+      cases h : f.done
+      · exact absurd ((GenFacts.SurviveApi.fut_set_guard_iff f.done).mpr h) hg
+      · rfl
+    exact ⟨f, by rw [if_neg hg], hd, rfl⟩
+
+/-- `_resolve_all_futures_to_none` treats every future through the guard (false on a tree that sets results outright: C15-w4-seed3) -/
+theorem resolveOne_ok (f : Fut) : ∃ f', resolveOne f = .ok f' ∧ f'.done = true ∧ f'.id = f.id := by
+  unfold resolveOne
+  rw [GenFacts.SurviveApi.resolve_all_guarded_eq]
+  exact setNoneIfNotDone_ok f
 
 theorem resolveAll_ok : ∀ fs : List Fut, ∃ r, resolveAll fs = .ok r ∧ ∀ f ∈ r, f.done = true := by
   intro fs
   induction fs with
   | nil => exact ⟨[], rfl, by intro f hf; cases hf⟩
   | cons f t ih =>
-    obtain ⟨f', hf', hd, _⟩ := setNoneIfNotDone_ok f
+    obtain ⟨f', hf', hd, _⟩ := resolveOne_ok f
     obtain ⟨r, hr, hall⟩ := ih
     refine ⟨f' :: r, by simp only [resolveAll, hf', hr], ?_⟩
     intro x hx
